@@ -124,5 +124,13 @@ func init() {
 		Assumptions: []string{"ReadAt follows its documented contract: n = min(len(p), max(0, size-off)) and io.EOF iff n < len(p) (never io.ErrUnexpectedEOF)",
 			"CRC32C is an uninterpreted function; a changed record is assumed not to verify by an accidental checksum collision (probability 2^-32)",
 			"message times never decrease with offset and are not before 1970 when a time index is configured"}})
+	stepSplit := []SplitDim{{"layout", numLayouts}, {"ver", same("vers")}, {"prof", same("profs")}, {"params", same("paramsets")}, {"rmindex", same("rmindex")}}
+	stepQ := B{"segs": 2, "recs": 2, "vers": 3, "profs": 1, "paramsets": 2, "rmindex": 2, "batch": 2, "deletes": 2}
+	stepPublish := HarnessRun{Name: "h_step.Publish", Quick: stepQ, Split: stepSplit, Reach: []string{"rollover", "empty-batch", "empty-batch-with-rollover", "zero-time"}}
+	stepDelete := HarnessRun{Name: "h_step.Delete", Quick: stepQ, Split: stepSplit, Reach: []string{"empty-set", "negative-offset", "deleted-some", "head-emptied", "reader-segment-emptied", "head-rebased", "reader-segment-rebased", "head-tail-deleted"}}
+	stepReopen := HarnessRun{Name: "h_step.Reopen", Quick: stepQ, Split: stepSplit, Reach: []string{"eager-migrate", "readonly"}}
+	stepDelMulti := HarnessRun{Name: "h_step.DeleteMulti", Quick: stepQ, Split: stepSplit, Reach: []string{"deletemulti", "everything-deleted"}}
+	stepMigrate := HarnessRun{Name: "h_step.Migrate", Quick: stepQ, Split: stepSplit, Reach: []string{"migrate"}}
+	addProp(&Prop{ID: "T01", DesignRef: "scratch", Runs: []HarnessRun{stepPublish, stepDelete, stepReopen, stepDelMulti, stepMigrate}})
 	addProp(&Prop{ID: "C12", DesignRef: "DESIGN.md §4 C12", Runs: []HarnessRun{minOff}})
 }
